@@ -300,7 +300,7 @@ func init() {
 	for _, n := range []string{"nondetString", "nondetBool", "nondetInt", "nondetIntRange", "nondetRegexp", "nondetPred", "nondetURLPred",
 		"nondetRewriter", "nondetError", "verifAssume", "verifAssert", "verifReach", "verifProvenance", "verifFreeze", "verifNote",
 		"verifNoteBool", "verifNoteInt", "verifMatch", "verifHasToken", "verifCut", "verifIsTokStr", "verifLower", "verifURLHost", "verifURLScheme", "verifURLOk", "verifURLNorm",
-		"verifEffects", "verifSameObject", "verifWrite", "verifWriteFailed", "verifOr", "verifAnd", "verifImplies", "verifCurrentToken", "verifIte", "verifNot", "verifMatchPrefix", "verifAppended", "verifParam", "verifNoteURL", "verifURLStubCount", "verifURLStubProduced"} {
+		"verifEffects", "verifSameObject", "verifWrite", "verifWriteFailed", "verifOr", "verifAnd", "verifImplies", "verifCurrentToken", "verifIte", "verifNot", "verifMatchPrefix", "verifAppended", "verifParam", "verifNoteURL", "verifURLStubCount", "verifURLStubProduced", "verifRU", "verifJoinIf", "verifCallCount"} {
 		intrinsicNames[n] = true
 	}
 }
@@ -474,6 +474,23 @@ func (in *Interp) intrinsic(st *State, fr *Frame, name string, args []Value, cc 
 			ds = append(ds, smt.And(u[2], smt.Eq(v, u[1])))
 		}
 		return one(smt.Or(ds...))
+	case "verifRU":
+		x := termOf(args[0])
+		return one(smt.UF("ru", smt.String, x))
+	case "verifJoinIf":
+		// acc, if c then (acc == "" ? piece : acc + sep + piece) else acc
+		acc, c, piece, sep := termOf(args[0]), termOf(args[1]), termOf(args[2]), termOf(args[3])
+		joined := smt.Ite(smt.Eq(acc, smt.StrC("")), piece, smt.Concat(acc, sep, piece))
+		return one(smt.Ite(c, joined, acc))
+	case "verifCallCount":
+		n := 0
+		suffix := constStr(args[0])
+		for k, v := range st.Calls {
+			if strings.HasSuffix(k, "."+suffix) || strings.HasSuffix(k, ")."+suffix) {
+				n += v
+			}
+		}
+		return one(smt.IntC(int64(n)))
 	case "verifNot":
 		return one(smt.Not(termOf(args[0])))
 	case "verifMatchPrefix":
